@@ -228,7 +228,16 @@ func c06run(out *evid.Out, f *evid.Flags, run int) {
 		return a, []*cw6{a}
 	}
 	// the logger of worker w, derived the same way in both phases
+	// threeHooks: ONE parent shared by all workers, whose hooks were added in several calls (so that its hook list
+	// has spare capacity); every fifth worker hangs its own hook below it: siblings must not see each other's
+	threeHooks := func(base zerolog.Logger) zerolog.Logger {
+		return base.Hook(addHook6{"p1"}).Hook(addHook6{"p2"}).Hook(addHook6{"p3"})
+	}
+	var shared zerolog.Logger
 	mkLogger := func(base zerolog.Logger, w int) zerolog.Logger {
+		if w%4 != 0 && w%5 == 4 {
+			return shared.Hook(addHook6{fmt.Sprintf("own%d", w)})
+		}
 		switch w % 4 {
 		case 0:
 			return base
@@ -270,6 +279,7 @@ func c06run(out *evid.Out, f *evid.Flags, run int) {
 			root = capW[0]
 		}
 		baseC := zerolog.New(root).With().Str("svc", "c06").Logger()
+		shared = threeHooks(baseC)
 		for w := 0; w < G; w++ {
 			l := mkLogger(baseC, w)
 			for i := range chains[w] {
@@ -289,6 +299,7 @@ func c06run(out *evid.Out, f *evid.Flags, run int) {
 		rc.expect = expect[k]
 	}
 	base2 := zerolog.New(root2).With().Str("svc", "c06").Logger()
+	shared = threeHooks(base2)
 	if destKind == 4 {
 		zlog.Logger = base2
 	}
